@@ -6,8 +6,8 @@ from tlcrun import BUILD, SPEC
 
 LAB_DEFAULTS = dict(Subst="Subst4", Regions="CC_Regions", Forms="NoCases", Fracs="NoSet", TUnits="AllUnits",
                     CapStep="CC_CapStep", RemoveCases="NoCases", FillCases="NoCases", FillDeltas="NoSet",
-                    DiluteCases="NoCases", DiluteYs="NoSet", NewCases="NoCases", SolCases="NoCases",
-                    FromCases="NoCases")
+                    DiluteCases="NoCases", DiluteYs="NoSet", NewCases="NoCases", SolCases="NoSet",
+                    FromCases="NoSet")
 LAB_INVARIANTS = ["TypeOK", "NonNeg", "CapOK", "VolConsistent"]
 LAB_PROPERTIES = ["Conservation", "LocalityXfer", "RefusalAtomic", "AliquotExact", "RemoveExact", "FillReaches",
                   "DiluteReaches", "SolutionMeets", "StockConserves"]
@@ -27,6 +27,9 @@ INSTANCES = {
                                                Regions="PL_Regions", Forms="PL_Forms", Fracs="PL_Fracs",
                                                CapStep="PL_CapStep", RemoveCases="PL_Remove", FillCases="PL_Fill",
                                                FillDeltas="PL_FillDeltas"), den_bound=1728),
+    # create_solution / create_solution_from tables (one step from the initial state)
+    "LabSOL": dict(module="MC_Lab", consts=dict(Subst="Subst5", Names="SOL_Names", Shape="SOL_Shape", InitVes="SOL_Init",
+                                                SolCases="SOL_CasesQuick", FromCases="SOL_FromQuick"), den_bound=100000),
 }
 
 
